@@ -50,7 +50,7 @@ def handle (op : String) (j : Json) : Option Json :=
           | "C19" => c04 v     -- "only use of the build, upper or work directory makes the layer un-unmountable"
           | "C08" => c08 v
           | "C09" => c09 v
-          | "C10" => c10 v
+          | "C10" => let a := c10 v; if a.holds then { c10sys v with tags := a.tags } else a
           | "C15" => c15 v
           | "C16" => c16 v
           | "C11" =>
